@@ -269,8 +269,13 @@ func (v *DataModelView) DrawTuple(
 					typeName = path[1]
 				}
 				if viewParam.Types[appName+"."+typeName] == nil && viewParam.Types[typeName] == nil {
-					v.StringBuilder.WriteString(collectionString)
-					continue
+					// a field holding an in-place tuple refers to the nested type <EntityName>.<typeName>
+					owner := strings.SplitN(viewParam.EntityName, ".", 2)
+					if len(path) != 1 || len(owner) != 2 || viewParam.Types[viewParam.EntityName+"."+typeName] == nil {
+						v.StringBuilder.WriteString(collectionString)
+						continue
+					}
+					appName, typeName = owner[0], owner[1]+"."+typeName
 				}
 				v.StringBuilder.WriteString(collectionString)
 				if _, mulRelation := relationshipMap[encEntity][v.UniqueVarForAppName(appName, typeName)]; mulRelation {
